@@ -243,7 +243,7 @@ func init() {
 			}
 			ctx.Count("exhaustive_small_curves", int64(n))
 		}
-		nr := ctx.N(20000, 2000000)
+		nr := ctx.N(300000, 4000000)
 		for i := 0; i < nr; i++ {
 			c := &c13Case{NeverStop: r.Intn(3) > 0}
 			cfgs(c, r.Intn(8))
